@@ -164,7 +164,7 @@ def main(tier, seed, replay=None):
         "float32 rounding absorbed by tolerances evaluated inside Coq (Model/MomentsRun.v)"]
     rep.assumptions += ["continuous leaf moments: scipy values tied against closed forms, not proved",
                         "root scope is 0..n-1 (the implementation indexes its moment matrix by variable id)"]
-    ncirc = 40 if tier == "quick" else 400
+    ncirc = 40 if tier == "quick" else 2000
     if replay:
         ncirc = 0
     roots = []
